@@ -77,7 +77,8 @@ func (n *node[K, V]) search(t *BTree[K, V], key K, height int) (V, bool) {
 	// external node
 	if height == 0 {
 		for i := 0; i < n.m; i++ {
-			if gogu.Equal(key, n.children[i].key) {
+			// A removed entry is only a tombstone: it must not be reported as found.
+			if gogu.Equal(key, n.children[i].key) && !n.children[i].isRemoved {
 				return n.children[i].value, true
 			}
 		}
